@@ -9,7 +9,7 @@ use nverif::*;
 use serde_json::{json, Value};
 use tensor_chain::block::{Block, BlockHeader, Transaction};
 use tensor_chain::chain::Chain;
-use tensor_chain::network::MemoryTransport;
+use tensor_chain::network::{AppendEntriesResponse, MemoryTransport, Message};
 use tensor_chain::raft::{RaftConfig, RaftNode};
 use tensor_chain::signing::{Identity, ValidatorRegistry};
 use tensor_chain::state_root::compute_state_root;
@@ -1194,6 +1194,11 @@ fn mk_block(rc: &RawChain, hsel: &str, prev: &str, root: &str, sig: &str, ts_off
 /// a block on top of `chain`'s current head, each check of `Chain::append` individually satisfiable or not
 #[allow(clippy::too_many_arguments)]
 fn mk_block_on(chain: &Chain, ids: &[Identity], base_ts: u64, state_root: [u8; 32], hsel: &str, prev: &str, root: &str, sig: &str, ts_off: u64, prop: usize, txs: &[Tx]) -> Block {
+    mk_block_emb(chain, ids, base_ts, state_root, hsel, prev, root, sig, ts_off, prop, txs, SparseVector::new(0))
+}
+/// the same with a delta embedding in the header (covered by the signature)
+#[allow(clippy::too_many_arguments)]
+fn mk_block_emb(chain: &Chain, ids: &[Identity], base_ts: u64, state_root: [u8; 32], hsel: &str, prev: &str, root: &str, sig: &str, ts_off: u64, prop: usize, txs: &[Tx], emb: SparseVector) -> Block {
     struct R<'a> {
         chain: &'a Chain,
         ids: &'a [Identity],
@@ -1210,7 +1215,7 @@ fn mk_block_on(chain: &Chain, ids: &[Identity], base_ts: u64, state_root: [u8; 3
         flip(&mut prev_hash);
     }
     let mut b = Block::new(
-        BlockHeader { height, prev_hash, tx_root: [0u8; 32], state_root, delta_embedding: SparseVector::new(0), quantized_codes: vec![], timestamp: rc.base_ts - 1000 + ts_off, proposer: rc.ids[prop].node_id(), signature: vec![] },
+        BlockHeader { height, prev_hash, tx_root: [0u8; 32], state_root, delta_embedding: emb, quantized_codes: vec![], timestamp: rc.base_ts - 1000 + ts_off, proposer: rc.ids[prop].node_id(), signature: vec![] },
         txs.iter().map(Tx::real).collect(),
     );
     match root {
@@ -1701,6 +1706,360 @@ fn user_dump(s: &TensorStore) -> Dump {
     store_dump(s).into_iter().filter(|(k, _)| is_user_key(k)).collect()
 }
 
+// ------------------------------------------------------------------ replicas as OBJECTS: fast path, recent-embedding window
+
+/// two `TensorStateMachine` replicas that held the same state store contents, height and tip were fed the same
+/// block and disagree afterwards (acceptance, height, tip, state root or store image)
+const DIVERGE_CLASS: &str = "tensor_chain.state_machine.apply_block/replicas_diverge";
+/// `apply_block` / `apply_committed` returned Ok for a block whose header state root is not the root of the
+/// replica's state store after the call
+const WRONG_ROOT_CLASS: &str = "tensor_chain.state_machine.apply_block/block_with_wrong_state_root_accepted";
+
+const FP_DEFECTS: &[&str] = &["sroot_bad", "sroot_stale", "height_same", "height_skip", "prev_bad", "txroot_bad", "sig_none", "sig_bad", "sig_wrongkey"];
+
+#[derive(Clone, Debug, PartialEq)]
+enum FpStep {
+    /// a block built on replica 0's chain head and state store, fed to EVERY replica; `emb`: None = zero delta
+    /// embedding, Some((class, perturbation)) = unit vector of the class axis plus a small component elsewhere
+    /// (cosine within a class >= 0.99, across classes <= 0.01)
+    Block { emb: Option<(u64, u64)>, defect: &'static str, txs: Vec<Tx>, prop: usize },
+    /// the process of replica `i` restarts: a new `TensorStateMachine` (true: `with_threshold(0.0)`) over the same
+    /// chain and the same state store
+    Restart(usize, bool),
+    /// `clear_recent()` on replica `i`
+    Clear(usize),
+}
+fn show_fp(s: &FpStep) -> String {
+    match s {
+        FpStep::Block { emb, defect, txs, prop } => format!("block emb={} defect={defect} proposer={prop} txs={}", emb.map_or("-".to_string(), |(c, q)| format!("{c}:{q}")), show_txs(txs)),
+        FpStep::Restart(i, all) => format!("restart replica {i}{}", if *all { " with_threshold(0.0)" } else { "" }),
+        FpStep::Clear(i) => format!("clear_recent replica {i}"),
+    }
+}
+fn fp_embedding(emb: Option<(u64, u64)>) -> SparseVector {
+    match emb {
+        None => SparseVector::new(0),
+        Some((c, q)) => {
+            let mut v = vec![0.0f32; 16];
+            v[(c % 4) as usize] = 1.0;
+            if q > 0 {
+                v[4 + (q % 12) as usize] = 0.1;
+            }
+            SparseVector::from_dense(&v)
+        }
+    }
+}
+/// a Raft node that is leader of {itself, "peer"}; the harness plays the peer (acknowledges every entry), so that
+/// `propose` + acknowledgement commits an entry and `TensorStateMachine::apply_committed` applies it (`apply_entry`)
+fn fp_log_raft() -> Arc<RaftNode> {
+    let raft = Arc::new(RaftNode::new("n".to_string(), vec!["peer".to_string()], Arc::new(MemoryTransport::new("n".to_string())), RaftConfig::default()));
+    raft.become_leader();
+    fp_peer_ack(&raft, 0);
+    raft
+}
+fn fp_peer_ack(raft: &RaftNode, match_index: u64) {
+    let _ = raft.handle_message(&"peer".to_string(), &Message::AppendEntriesResponse(AppendEntriesResponse { term: raft.current_term(), success: true, follower_id: "peer".to_string(), match_index, used_fast_path: false }));
+}
+struct FpOutcome {
+    disagreements: Vec<(String, String, String)>,
+    violations: Vec<(String, String)>,
+    hits: Vec<String>,
+    nontrivial: bool,
+    trace: Vec<String>,
+}
+struct FpRep {
+    chain: Arc<Chain>,
+    chain_store: TensorStore,
+    state: TensorStore,
+    raft: Arc<RaftNode>,
+    sm: TensorStateMachine,
+    all: bool,
+}
+fn fp_sm(chain: &Arc<Chain>, raft: &Arc<RaftNode>, state: &TensorStore, all: bool) -> TensorStateMachine {
+    if all { TensorStateMachine::with_threshold(chain.clone(), raft.clone(), state.clone(), 0.0) } else { TensorStateMachine::new(chain.clone(), raft.clone(), state.clone()) }
+}
+/// compare one line with the model while it is followed; after the first disagreement the case continues on the
+/// real objects alone (the oracles never consult the model)
+fn fp_cmp(m: &mut Option<&mut Model>, follow: &mut bool, out: &mut FpOutcome, at: &str, imp: &str, line: &str) {
+    if !*follow {
+        return;
+    }
+    if let Some(m) = m.as_mut() {
+        let ans = m.ask(line);
+        let (a, b) = reconcile(imp, &ans);
+        if a != b {
+            out.disagreements.push((at.to_string(), a, b));
+            *follow = false;
+        }
+    }
+}
+fn fp_tell(m: &mut Option<&mut Model>, follow: bool, line: &str) {
+    if follow {
+        if let Some(m) = m.as_mut() {
+            m.ask(line);
+        }
+    }
+}
+/// `nrep` replicas (separate state stores, one genesis block), every block of `steps` fed to all of them through
+/// `apply_block` (or, `log_path`, through each replica's Raft log and `apply_committed`), restarts and
+/// `clear_recent()` in between.  Which path `can_fast_path` chooses is read off the real object's public getters
+/// before each call (`recent_embedding_count`, `recent_embedding_similarity`, `fast_path_threshold`).
+fn run_fp_case(mut m: Option<&mut Model>, nrep: usize, with_reg: bool, log_path: bool, shared_raft: &Arc<RaftNode>, steps: &[FpStep]) -> FpOutcome {
+    let mut out = FpOutcome { disagreements: vec![], violations: vec![], hits: vec![], nontrivial: false, trace: vec![] };
+    let ids: Vec<Identity> = (0..4).map(|_| Identity::generate()).collect();
+    let reg = Arc::new(ValidatorRegistry::new());
+    reg.register(&ids[1]);
+    reg.register(&ids[2]);
+    let mut reps: Vec<FpRep> = Vec::new();
+    for i in 0..nrep {
+        let chain_store = TensorStore::new();
+        if i > 0 {
+            for k in ["chain:block:0", "chain:meta"] {
+                chain_store.put(k, reps[0].chain_store.get(k).unwrap()).unwrap();
+            }
+        }
+        let graph = Arc::new(GraphEngine::with_store(chain_store.clone()));
+        let chain = Arc::new(if with_reg { Chain::with_registry(graph, ids[1].node_id(), reg.clone()) } else { Chain::new(graph, ids[1].node_id()) });
+        chain.initialize().unwrap();
+        let state = TensorStore::new();
+        let raft = if log_path { fp_log_raft() } else { shared_raft.clone() };
+        let sm = fp_sm(&chain, &raft, &state, false);
+        reps.push(FpRep { chain, chain_store, state, raft, sm, all: false });
+    }
+    let base_ts = read_block(&reps[0].chain_store, 0).unwrap().header.timestamp;
+    let mut follow = m.is_some();
+    fp_tell(&mut m, follow, &format!("rnew {nrep} {} 1000", u8::from(with_reg)));
+    let rstate = |x: &FpRep| format!("h={} verify={} blocks={} data={}", x.chain.height(), vres(x.chain.verify_chain()), show_heights(&blocks_present(&x.chain_store)), show_image(&data_image(&x.state)));
+    let (mut nblock, mut fast_accepted, mut rejected) = (0u64, 0u64, 0u64);
+    'steps: for st in steps {
+        match st {
+            FpStep::Restart(i, all) => {
+                if *i >= nrep {
+                    continue;
+                }
+                let x = &mut reps[*i];
+                x.all = *all;
+                x.sm = fp_sm(&x.chain, &x.raft, &x.state, *all);
+                fp_tell(&mut m, follow, &format!("rrestart {i} {}", u8::from(*all)));
+                out.trace.push(show_fp(st));
+                out.hits.push("replay.fastpath.restart".into());
+            }
+            FpStep::Clear(i) => {
+                if *i >= nrep {
+                    continue;
+                }
+                reps[*i].sm.clear_recent();
+                fp_tell(&mut m, follow, &format!("rclear {i}"));
+                out.trace.push(show_fp(st));
+                out.hits.push("replay.fastpath.clear_recent".into());
+            }
+            FpStep::Block { emb, defect, txs, prop } => {
+                let (mut hsel, mut prev, mut rootsel, mut sroot, mut sig) = ("ok", "ok", "ok", "ok", "ok");
+                match *defect {
+                    "sroot_bad" => sroot = "bad",
+                    "sroot_stale" => sroot = "stale",
+                    "height_same" => hsel = "same",
+                    "height_skip" => hsel = "skip",
+                    "prev_bad" => prev = "bad",
+                    "txroot_bad" => rootsel = "bad",
+                    "sig_none" => sig = "none",
+                    "sig_bad" => sig = "bad",
+                    "sig_wrongkey" => sig = "wrongkey",
+                    _ => {}
+                }
+                let ts_off = 1000 + 2 * nblock;
+                nblock += 1;
+                // the proposer computes the state root on a copy of replica 0's state store
+                let temp = TensorStore::new();
+                temp.restore_from_bytes(&reps[0].state.snapshot_bytes().unwrap()).unwrap();
+                let stale_root = compute_state_root(&temp).unwrap();
+                for t in txs {
+                    apply_transaction_to_store(&temp, &t.real()).unwrap();
+                }
+                let honest_root = compute_state_root(&temp).unwrap();
+                let mut state_root = honest_root;
+                match sroot {
+                    "bad" => flip(&mut state_root),
+                    "stale" => state_root = stale_root,
+                    _ => {}
+                }
+                let e = fp_embedding(*emb);
+                let b = mk_block_emb(&reps[0].chain, &ids, base_ts, state_root, hsel, prev, rootsel, sig, ts_off, *prop, txs, e.clone());
+                fp_tell(&mut m, follow, &format!("rblock 0 {hsel} {prev} {rootsel} {sroot} {sig} {ts_off} {prop} {} {}", show_txs(txs), emb.map_or("-".to_string(), |(c, q)| format!("{c}:{q}"))));
+                let mut line = show_fp(st);
+                let mut pres: Vec<(u64, [u8; 32], Dump)> = Vec::new();
+                let mut posts: Vec<(u64, [u8; 32], Dump)> = Vec::new();
+                let mut oks: Vec<bool> = Vec::new();
+                let mut paths: Vec<bool> = Vec::new();
+                for i in 0..nrep {
+                    let x = &mut reps[i];
+                    // which path `can_fast_path` is about to choose, from the object's own getters
+                    let count = x.sm.recent_embedding_count();
+                    let fast = e.nnz() != 0 && count > 0 && x.sm.recent_embedding_similarity(&e) >= x.sm.fast_path_threshold();
+                    fp_cmp(&mut m, &mut follow, &mut out, &format!("block {nblock} replica {i}: window"), &format!("n={count} fast={}", u8::from(fast)), &format!("rwin {i}"));
+                    let pre = (x.chain.height(), x.chain.tip_hash(), store_dump(&x.state));
+                    let pre_blocks = blocks_present(&x.chain_store);
+                    let res: Result<(), ChainError> = if log_path {
+                        match x.raft.propose(b.clone()) {
+                            Ok(idx) => {
+                                fp_peer_ack(&x.raft, idx);
+                                match x.sm.apply_committed() {
+                                    Ok(1) => Ok(()),
+                                    Ok(n) => panic!("harness: apply_committed applied {n} entries after one committed proposal"),
+                                    Err(e) => Err(e),
+                                }
+                            }
+                            Err(e) => panic!("harness: Raft log of replica {i} refused the proposal: {e}"),
+                        }
+                    } else {
+                        x.sm.apply_block(&b)
+                    };
+                    let imp = res.as_ref().map_or_else(|e| verr(e), |()| "ok".into());
+                    fp_cmp(&mut m, &mut follow, &mut out, &format!("block {nblock} replica {i}: verdict"), &imp, &format!("rapply {i}"));
+                    fp_cmp(&mut m, &mut follow, &mut out, &format!("block {nblock} replica {i}: state"), &rstate(x), &format!("rstate {i}"));
+                    let path = if fast { "fast" } else { "full" };
+                    out.hits.push(format!("replay.fastpath.path.{path}.{}", if res.is_ok() { "accepted" } else { "rejected" }));
+                    out.hits.push(format!("replay.fastpath.defect.{defect}.{}", imp.replace(' ', "_")));
+                    line.push_str(&format!(" | replica {i}: window {count}, {path} path => {imp}"));
+                    let post = (x.chain.height(), x.chain.tip_hash(), store_dump(&x.state));
+                    if res.is_ok() {
+                        if fast {
+                            fast_accepted += 1;
+                        }
+                        // ORACLE: an accepted block's state root is the root of the state it produced
+                        let now = compute_state_root(&x.state).unwrap();
+                        if now != b.header.state_root {
+                            out.violations.push((WRONG_ROOT_CLASS.into(), format!(
+                                "block {nblock} ({}): replica {i} (window of {count} embeddings, {path} path) returned Ok for a block whose header state_root {} is not the root {} of its state store after the call (the root of the replica's state with the transactions applied is {}); height {} -> {}",
+                                show_fp(st), &hex(&b.header.state_root)[..12], &hex(&now)[..12], &hex(&honest_root)[..12], pre.0, post.0)));
+                        }
+                    } else {
+                        rejected += 1;
+                        // ORACLE: a rejected block leaves the replica as it was
+                        if post != pre || blocks_present(&x.chain_store) != pre_blocks {
+                            out.violations.push(("tensor_chain.state_machine.apply_block/rejected_block_changed_replica".into(), format!("block {nblock} ({}): replica {i} returned {imp} but its state store / chain height / tip / block records are not those of before the call", show_fp(st))));
+                        }
+                        if log_path {
+                            // the rejected entry stays at the head of the replica's log: the replica comes back with a
+                            // new log and a new state machine object
+                            x.raft = fp_log_raft();
+                            x.sm = fp_sm(&x.chain, &x.raft, &x.state, x.all);
+                            fp_tell(&mut m, follow, &format!("rrestart {i} {}", u8::from(x.all)));
+                            line.push_str(" (log stuck: replica restarted with a new log)");
+                        }
+                    }
+                    pres.push(pre);
+                    posts.push(post);
+                    oks.push(res.is_ok());
+                    paths.push(fast);
+                }
+                out.trace.push(line);
+                if paths.iter().any(|f| *f) && paths.iter().any(|f| !*f) {
+                    out.hits.push("replay.fastpath.replicas_on_different_paths".into());
+                    if sroot != "ok" {
+                        out.hits.push("replay.fastpath.wrong_state_root_on_different_paths".into());
+                    }
+                }
+                if *defect != "none" && paths.iter().any(|f| *f) {
+                    out.hits.push(format!("replay.fastpath.defect_on_fast_path.{defect}"));
+                }
+                // ORACLE: replicas that agreed before the block agree after it
+                for a in 0..nrep {
+                    for c in a + 1..nrep {
+                        if pres[a] == pres[c] && (oks[a] != oks[c] || posts[a] != posts[c]) {
+                            let (ra, rc) = (compute_state_root(&reps[a].state).unwrap(), compute_state_root(&reps[c].state).unwrap());
+                            let mut keys: Vec<String> = dump_changes(&posts[a].2, &posts[c].2);
+                            keys.truncate(6);
+                            out.violations.push((DIVERGE_CLASS.into(), format!(
+                                "block {nblock} ({}): replicas {a} and {c} held the same state store contents, height {} and tip before the block; replica {a} ({} path) {} it, replica {c} ({} path) {} it; heights {} / {}, tips {}, state roots {} / {} ({}), differing state keys {:?}",
+                                show_fp(st), pres[a].0, if paths[a] { "fast" } else { "full" }, if oks[a] { "ACCEPTED" } else { "rejected" }, if paths[c] { "fast" } else { "full" }, if oks[c] { "ACCEPTED" } else { "rejected" },
+                                posts[a].0, posts[c].0, if posts[a].1 == posts[c].1 { "equal" } else { "differ" }, &hex(&ra)[..12], &hex(&rc)[..12], if ra == rc { "equal" } else { "differ" }, keys)));
+                            break 'steps;
+                        }
+                    }
+                }
+            }
+        }
+    }
+    if follow {
+        let all_equal = reps.iter().all(|x| compute_state_root(&x.state).unwrap() == compute_state_root(&reps[0].state).unwrap());
+        fp_cmp(&mut m, &mut follow, &mut out, "end: state roots", if all_equal { "roots equal" } else { "roots differ" }, "rrootsall");
+    }
+    if follow && m.is_some() {
+        out.hits.push("replay.fastpath.model_followed_to_the_end".into());
+    }
+    out.nontrivial = fast_accepted > 0 && rejected > 0;
+    out
+}
+/// the directed histories of the fast-path stream (they run before every seeded stream): the shortest history in
+/// which the state-root comparison on the fast path is the only thing that keeps two replicas together, and its
+/// neighbours
+fn fp_directed() -> Vec<(&'static str, usize, bool, Vec<FpStep>)> {
+    let blk = |emb: Option<(u64, u64)>, defect: &'static str, k: u64, v: u64| FpStep::Block { emb, defect, txs: vec![Tx::Put(k, v)], prop: 1 };
+    let mut out: Vec<(&'static str, usize, bool, Vec<FpStep>)> = Vec::new();
+    // (a) two honest similar blocks, replica 1 restarts, a similar block with an altered state root
+    out.push(("restart_then_wrong_root", 2, false, vec![blk(Some((1, 0)), "none", 1, 1), blk(Some((1, 1)), "none", 2, 2), FpStep::Restart(1, false), FpStep::Block { emb: Some((1, 2)), defect: "sroot_bad", txs: vec![Tx::Put(1, 99), Tx::Put(3, 3)], prop: 1 }, blk(Some((1, 3)), "none", 4, 4)]));
+    // (b) the shortest one: one honest block, restart, wrong root
+    out.push(("minimal", 2, false, vec![blk(Some((1, 0)), "none", 1, 1), FpStep::Restart(1, false), blk(Some((1, 1)), "sroot_bad", 2, 2)]));
+    // (c) clear_recent() instead of a restart; the stale root (the proposer forgot to apply the block)
+    out.push(("clear_then_stale_root", 2, false, vec![blk(Some((2, 0)), "none", 1, 1), FpStep::Clear(0), blk(Some((2, 5)), "sroot_stale", 2, 2), blk(Some((2, 6)), "none", 2, 3)]));
+    // (d) same windows, different thresholds: replica 1 was created with_threshold(0.0), the block is of another class
+    out.push(("thresholds_differ", 2, false, vec![FpStep::Restart(1, true), blk(Some((1, 0)), "none", 1, 1), blk(Some((2, 0)), "sroot_bad", 2, 2), blk(Some((3, 0)), "none", 3, 3)]));
+    // (e) EVERY defect at a position where replica 0 takes the fast path and the restarted replica 1 the full path
+    // (validator keys registered, so that the signature defects are defects), an honest block after each
+    let mut steps = vec![blk(Some((1, 0)), "none", 0, 1)];
+    for (n, d) in FP_DEFECTS.iter().enumerate() {
+        steps.push(FpStep::Restart(1, false));
+        steps.push(blk(Some((1, 1 + n as u64)), d, 1 + (n as u64 % 4), 10 + n as u64));
+        steps.push(blk(Some((1, 0)), "none", 5, 20 + n as u64));
+    }
+    out.push(("every_defect_fast_vs_full", 3, true, steps));
+    // (f) the window evicts: ten accepted blocks of class 2 push the class-1 embedding out of replica 0's window;
+    // replica 1 restarts after five of them.  The class-1 block with a wrong root then meets: replica 0 window of 10
+    // without class 1 (full path), replica 1 window of 5 (full path); then class 2 with a wrong root (both fast)
+    let mut steps = vec![blk(Some((1, 0)), "none", 0, 1)];
+    for n in 0..10u64 {
+        if n == 5 {
+            steps.push(FpStep::Restart(1, false));
+        }
+        steps.push(blk(Some((2, n)), "none", n % 5, 30 + n));
+    }
+    steps.push(blk(Some((1, 1)), "sroot_bad", 1, 50));
+    steps.push(blk(Some((2, 11)), "sroot_stale", 2, 51));
+    steps.push(blk(Some((2, 3)), "none", 2, 52));
+    out.push(("window_evicts_oldest", 2, false, steps));
+    // (g) blocks without a delta embedding never enter the window and never take the fast path
+    out.push(("zero_embeddings", 2, false, vec![blk(None, "none", 1, 1), blk(Some((1, 0)), "sroot_bad", 2, 2), blk(Some((1, 0)), "none", 2, 3), blk(None, "sroot_bad", 3, 4), blk(None, "none", 3, 5)]));
+    out
+}
+fn gen_fp_steps(r: &mut Rng, nrep: usize) -> Vec<FpStep> {
+    let nblocks = 3 + r.below(8);
+    let hot = r.below(4);
+    let mut val = 0u64;
+    let mut steps = Vec::new();
+    for j in 0..nblocks {
+        if j > 0 && r.chance(1, 3) {
+            steps.push(FpStep::Restart(r.below(nrep as u64) as usize, r.chance(1, 5)));
+        } else if j > 0 && r.chance(1, 10) {
+            steps.push(FpStep::Clear(r.below(nrep as u64) as usize));
+        }
+        let emb = match r.below(10) {
+            0 => None,
+            1 | 2 => Some((r.below(4), r.below(12))),
+            _ => Some((hot, r.below(12))),
+        };
+        // the first block is honest more often, so that a window exists when the defects arrive
+        let defect: &'static str = if r.chance(if j == 0 { 1 } else { 2 }, 5) {
+            if r.chance(1, 2) { if r.chance(2, 3) { "sroot_bad" } else { "sroot_stale" } } else { FP_DEFECTS[2 + r.below(FP_DEFECTS.len() as u64 - 2) as usize] }
+        } else {
+            "none"
+        };
+        let ntx = 1 + r.below(3) as usize;
+        steps.push(FpStep::Block { emb, defect, txs: gen_txs(r, ntx, &mut val), prop: 1 + r.below(2) as usize });
+    }
+    steps
+}
+
 fn main() {
     let args = parse_args();
     let mut rep = Report::new(
@@ -1708,7 +2067,7 @@ fn main() {
          block (workspace stream: >=1 successful non-empty commit; append stream: >=1 accepted block; tamper stream: one \
          mutation applied to a stored block of a verifying chain; replay: >=1 block applied; concurrent: >=1 commit Ok; \
          late_fail: >=1 commit of the history returned an error; reopen and directed.append_crash: every case (a restart over a chain of >=1 appended / committed block, or over a store a stopped commit left behind); \
-         replay.verdicts: >=1 block accepted and >=1 rejected; variants: >=1 successful commit); distinct = distinct canonical case text",
+         replay.verdicts: >=1 block accepted and >=1 rejected; replay.fastpath: >=1 block accepted through the fast path and >=1 block rejected; variants: >=1 successful commit); distinct = distinct canonical case text",
     );
     rep.expected_branches = [
         "ws.commit.ok_h", "ws.commit.empty", "ws.commit.err_not_active", "ws.commit.err_too_many", "ws.commit.err_conflict",
@@ -1732,6 +2091,12 @@ fn main() {
         "directed.append_crash.chain_after_restart_verifies", "ws.crashcommit.ok_h",
         "replay.verdict.ok", "replay.verdict.err_state_root", "replay.verdict.err_height", "replay.verdict.err_prev_hash",
         "replay.verdict.err_tx_root", "replay.verdict.err_unsigned", "replay.verdict.err_bad_sig",
+        "replay.fastpath.path.fast.accepted", "replay.fastpath.path.fast.rejected", "replay.fastpath.path.full.accepted", "replay.fastpath.path.full.rejected",
+        "replay.fastpath.replicas_on_different_paths", "replay.fastpath.wrong_state_root_on_different_paths", "replay.fastpath.restart", "replay.fastpath.clear_recent",
+        "replay.fastpath.defect_on_fast_path.sroot_bad", "replay.fastpath.defect_on_fast_path.sroot_stale", "replay.fastpath.defect_on_fast_path.height_same",
+        "replay.fastpath.defect_on_fast_path.height_skip", "replay.fastpath.defect_on_fast_path.prev_bad", "replay.fastpath.defect_on_fast_path.txroot_bad",
+        "replay.fastpath.defect_on_fast_path.sig_none", "replay.fastpath.defect_on_fast_path.sig_bad", "replay.fastpath.defect_on_fast_path.sig_wrongkey",
+        "replay.fastpath.model_followed_to_the_end",
         "variants.late_fail.failed", "variants.op.Put", "variants.op.Delete", "variants.op.Embed", "variants.op.NodeCreate", "variants.op.NodeDelete",
         "variants.op.EdgeCreate", "variants.op.TableInsert", "variants.op.TableUpdate", "variants.op.TableDelete", "variants.op.CompareAndSwap",
     ]
@@ -2138,6 +2503,69 @@ fn main() {
         }
     }
     lap("directed");
+    // ---------------- stream F: replicas as OBJECTS.  Two or three real `TensorStateMachine` replicas (separate state
+    // stores, one genesis block) are fed the SAME block sequence; the blocks carry delta embeddings of a few direction
+    // classes, so the fast path is really taken (counted: replay.fastpath.path.fast.*), and the replicas' recent-
+    // embedding windows are made to differ: a replica is re-created between blocks (restart: window emptied, possibly
+    // another threshold) or has `clear_recent()` called.  Blocks with a wrong state root (altered, stale) / height /
+    // predecessor hash / transaction root / signature come at every position, in particular where one replica takes
+    // the fast and another the full path.  A third of the cases feed the blocks through each replica's Raft log and
+    // `apply_committed` (`apply_entry`) instead of `apply_block`.  Model: `applyBlockM` per replica (window, path,
+    // verdict, state after every call).  Oracles on the real objects: replicas that agreed before a block agree after
+    // it (acceptance, height, tip, state root, store image); an accepted block's state root is the root of the
+    // replica's state; a rejected block changes nothing.  Directed histories first, then the seeded ones.
+    {
+        let mut r = root.fork("replay.fastpath");
+        let shared_raft = {
+            let id = Identity::generate();
+            Arc::new(RaftNode::new(id.node_id(), vec![], Arc::new(MemoryTransport::new(id.node_id())), RaftConfig::default()))
+        };
+        let mut cases: Vec<(String, usize, bool, bool, Vec<FpStep>)> = Vec::new();
+        for (name, nrep, with_reg, steps) in fp_directed() {
+            for log_path in [false, true] {
+                cases.push((format!("directed.{name}"), nrep, with_reg, log_path, steps.clone()));
+            }
+        }
+        for _ in 0..30 * scale {
+            let nrep = 2 + r.below(2) as usize;
+            let with_reg = r.chance(1, 2);
+            let log_path = r.chance(1, 3);
+            let steps = gen_fp_steps(&mut r, nrep);
+            cases.push(("seeded".to_string(), nrep, with_reg, log_path, steps));
+        }
+        for (n, (name, nrep, with_reg, log_path, steps)) in cases.iter().enumerate() {
+            let (nrep, with_reg, log_path) = (*nrep, *with_reg, *log_path);
+            let out = run_fp_case(Some(&mut m), nrep, with_reg, log_path, &shared_raft, steps);
+            for h in &out.hits {
+                rep.hit(h);
+            }
+            let describe = |steps: &[FpStep], trace: &[String]| json!({"stream": "replay.fastpath", "case": name, "replicas": nrep, "validator_keys": with_reg,
+                "fed_through": if log_path { "each replica's Raft log + apply_committed" } else { "apply_block" }, "steps": steps.iter().map(show_fp).collect::<Vec<_>>(), "trace": trace});
+            for (at, imp, model) in &out.disagreements {
+                rep.disagree("replay.fastpath", json!({"case": name, "replicas": nrep, "validator_keys": with_reg, "log_path": log_path, "steps": steps.iter().map(show_fp).collect::<Vec<_>>(), "at": at}), imp, model);
+            }
+            let mut classes: Vec<String> = Vec::new();
+            for v in &out.violations {
+                if !classes.contains(&v.0) {
+                    classes.push(v.0.clone());
+                }
+            }
+            for class in classes {
+                // shrink the step list for this class (unless a failing input of the class is already recorded)
+                let mut fails = |cand: &[FpStep]| -> bool { run_fp_case(None, nrep, with_reg, log_path, &shared_raft, cand).violations.iter().any(|v| v.0 == class) };
+                let small = if rep.violations.iter().any(|v| v["class"] == class.as_str()) { steps.clone() } else { shrink_list(steps, &mut fails) };
+                let again = run_fp_case(None, nrep, with_reg, log_path, &shared_raft, &small);
+                let what = again.violations.iter().find(|v| v.0 == class).map(|v| v.1.clone()).unwrap_or_else(|| out.violations.iter().find(|v| v.0 == class).unwrap().1.clone());
+                violation(&mut rep, &class, &what, describe(&small, &again.trace));
+            }
+            let text = format!("{name} {nrep} {with_reg} {log_path} {}", steps.iter().map(show_fp).collect::<Vec<_>>().join(";"));
+            rep.case("replay.fastpath", if out.nontrivial { Some(&text) } else { None });
+            if n < 1 {
+                rep.sample(describe(steps, &out.trace));
+            }
+        }
+    }
+    lap("replay.fastpath");
     // ---------------- stream A: workspace op sequences
     let mut r = root.fork("workspaces");
     for case in 0..250 * scale {
